@@ -44,23 +44,24 @@ CLAIMS = {
         "note": "K8 (prefix look-alike of a value-less tag taken for the tag) was found by this check and repaired by a fix: commit.",
     },
     "C03": {
-        "technique": "Lean 4 proof (for every parser-producible media playlist free of two recorded shapes, the parser's state machine run on the writer's typed lines returns exactly the same value; writer and parser key sets refine one specification; text level through the line-splitter lemmas) + exhaustive key/map/segment histories through try_from -> to_string -> try_from -> to_string on library and model",
+        "technique": "Lean 4 proof (for every parser-producible media playlist free of one recorded shape, the parser's state machine run on the writer's typed lines returns exactly the same value; writer and parser key sets refine one specification; text level through the line-splitter lemmas) + exhaustive key/map/segment histories through try_from -> to_string -> try_from -> to_string on library and model",
         "text": ("Proof (Lean 4, Props/C03.lean with Proofs/KeyMirror.lean, Proofs/MediaRT.lean, Proofs/Render.lean): media_write_parse - for EVERY media playlist value "
                  "the parser can produce from any classified line list (entry points try_from / from_str / builder().allowable_excess_duration(e).parse), with "
-                 "keys that text can express (text_lines_noNum proves this for every text) and free of the shapes NoK2 / NoK3, the writer produces lines and the "
-                 "parser's state machine on those lines returns exactly the same value: playlist-level values, segments, numbers, URIs, durations, titles, resolved "
-                 "byte ranges, flags, date ranges, maps with their key coverage, per-segment keys with their effective IVs, unknown tags. The proof walks the writer's "
-                 "and the parser's state in lockstep: key_mirror / writer_refines (after the lines emitted for a key, parser keys in effect = writer's announced set, "
-                 "both refine C06.KeySpec), abs_after (the key history condition), segment_lines (one segment through C01.segment_faithful), segments_loop, "
-                 "built_reparsed + validOf_transfer (build() on the re-parsed segments gives the same segments and passes validation), hdr_builder. "
-                 "media_roundtrip / media_fixed_point - the same through to_string() and the text parser, and byte-identical second serialisation, under the "
-                 "per-line hypothesis LineRT (each written line's text classifies back to that line; per-tag status in DESIGN.md). k2_counterexample, "
-                 "k3_counterexample - the statement without NoK2 / NoK3 is false (recorded findings); control_roundtrip - non-vacuity. Tie + oracle: EVERY key/map/segment event sequence over an 11-letter alphabet up to the length bound, long "
-                 "random histories with IV/KEYFORMATVERSIONS, generated playlists with all 17 tags and the fixtures, through try_from -> to_string -> try_from -> "
-                 "to_string on library and model; status, observation, D, R and F must agree; on the library R must be '=' and F '1' except on K2 and K3, which "
-                 "the model reproduces exactly."),
+                 "keys that text can express (text_lines_noNum proves this for every text) and free of the shape NoK2 (an EXT-X-KEY line between a segment's MAP "
+                 "and its URI), the writer produces lines and the parser's state machine on those lines returns exactly the same value: playlist-level values, "
+                 "segments, numbers, URIs, durations, titles, resolved byte ranges, flags, date ranges, maps with their key coverage, per-segment keys with their "
+                 "effective IVs, unknown tags. The proof walks the writer's and the parser's state in lockstep: key_mirror / writer_refines (after the lines "
+                 "emitted for a key, parser keys in effect = writer's announced set, both refine C06.KeySpec), reset_follows (the explicit METHOD=NONE the writer "
+                 "prints when a key format is dropped), parsed_persist (keys never vanish in a parsed playlist), segment_lines (one segment through "
+                 "C01.segment_faithful), segments_loop, built_reparsed + validOf_transfer (build() on the re-parsed segments gives the same segments and passes "
+                 "validation), hdr_builder. media_roundtrip / media_fixed_point - the same through to_string() and the text parser, and byte-identical second "
+                 "serialisation, under the per-line hypothesis LineRT (each written line's text classifies back to that line). k2_counterexample - the statement "
+                 "without NoK2 is false (recorded finding K2); k3_repaired - the former finding K3 now round-trips; control_roundtrip - non-vacuity. Tie + "
+                 "oracle: EVERY key/map/segment event sequence over an 11-letter alphabet up to the length bound, long random histories with IV / "
+                 "KEYFORMATVERSIONS, generated playlists with all 17 tags and the fixtures, through try_from -> to_string -> try_from -> to_string on library and "
+                 "model; status, observation, D, R and F must agree; on the library R must be '=' and F '1' except on K2, which the model reproduces exactly."),
         "design_ref": "DESIGN.md §7 C03",
-        "note": "Known findings K2 (key between MAP and URI) and K3 (reset followed by fewer key formats) are reported as KNOWN-FINDING; K4 (default KEYFORMATVERSIONS dropped by the writer) was repaired by a fix: commit.",
+        "note": "Known finding K2 (key between MAP and URI) is reported as KNOWN-FINDING; K3 (reset followed by fewer key formats) and K4 (default KEYFORMATVERSIONS) were found by this check and repaired by fix: commits.",
     },
     "C04": {
         "technique": "Lean 4 proof (writer's typed lines fed to the parser's state machine give back every parser-producible value; text level through the line-splitter lemmas under per-line re-classification) + to_string/try_from round trip run on library and model",
